@@ -329,7 +329,29 @@ def builtin(ex, st, fr, name, a, x, work):
         clear_state(ex, st, mf, EOFBIT)
         if mf['state'] & (FAILBIT | BADBIT): return a[0]
         off = a[1]
-        if not isc(off): raise Violation('unsupported', 'symbolic seek offset', st)
+        mf.pop('gbeyond', None)
+        if not isc(off):
+            # symbolic target (an untrusted size taken from the file): negative -> fail; inside the file -> one path per position;
+            # beyond the end -> legal for a filebuf, reads hit eof, tellg reports the requested position
+            S.add('seekg with a symbolic offset: one path per in-file position, one for "beyond the end", one for "negative"')
+            base = {0: 0, 1: mf['g'], 2: len(mf['data'])}[a[2]] if name.endswith('Seekdir') else 0
+            tgt = off + z3.BitVecVal(base, 64); size = len(mf['data'])
+            feas = [(cnd, k) for cnd, k in [(tgt > z3.BitVecVal(size, 64), size + 1), (tgt < 0, -1)] if ex.sat(st, cnd) is not None]
+            block = [tgt >= 0, tgt <= z3.BitVecVal(size, 64)]          # in-file positions: model-guided enumeration (one query per feasible position)
+            while True:
+                m = ex.sat(st, z3.And(*block))
+                if m is None: break
+                k = m.eval(tgt, model_completion=True).as_long(); feas.append((tgt == z3.BitVecVal(k, 64), k)); block.append(tgt != z3.BitVecVal(k, 64))
+            if not feas: return 'infeasible'
+            def doseek(state, k):
+                m2 = mf_get(state, fid_of(state, a[0]))
+                if k < 0: set_state(ex, state, m2, FAILBIT)
+                else:
+                    m2['g'] = k
+                    if k > size: m2['gbeyond'] = tgt
+            for cnd, k in feas[:-1]:
+                ex.fork_ret(st, x, cnd, a[0], work, post=lambda o, kk=k: doseek(o, kk))
+            cnd, k = feas[-1]; ex.assume(st, cnd); doseek(st, k); return a[0]
         if off >= (1 << 63): off -= 1 << 64
         if name.endswith('Seekdir'):
             way = a[2]
@@ -340,7 +362,7 @@ def builtin(ex, st, fr, name, a, x, work):
         return a[0]
     if name == '_ZNSi5tellgEv':
         S.add('std::istream::tellg -> memfile'); mf = mf_get(st, fid_of(st, a[0]))
-        pos = ((1 << 64) - 1) if mf['state'] & (FAILBIT | BADBIT) else mf['g']
+        pos = ((1 << 64) - 1) if mf['state'] & (FAILBIT | BADBIT) else mf.get('gbeyond', mf['g'])
         return ('agg', [pos, 0])
     if name == '_ZNSi3getEv':
         mf = mf_get(st, fid_of(st, a[0]))
@@ -519,13 +541,19 @@ def builtin(ex, st, fr, name, a, x, work):
         S.add('strtol: exact decimal model, forks on the shape of symbolic bytes (blanks/sign/digit count)')
         p = a[0]; base = a[2]
         if not isc(base) or base not in (10, 0): raise Violation('unsupported', 'strtol base', st)
-        bs = []
+        # candidate terminator positions: a symbolic byte that may be NUL ends the string on one family of shapes
+        allb = []; cands = []; nonzero = []
         for k in range(40):
+            if nonzero and isc(p.off) and p.obj in st.objs and isc(st.objs[p.obj].size) and p.off + k >= st.objs[p.obj].size:
+                m = ex.sat(st, z3.And(*nonzero))
+                if m is None: break                      # some earlier byte is the terminator on every path
+                raise Violation('memory', 'strtol reads past the end of an unterminated string', st, m)
             b = ex.load_val(st, Ptr(p.obj, p.off + k), I8)
-            bs.append(b)
-            if isc(b) and b == 0: break
+            if isc(b):
+                if b == 0: cands.append((k, list(nonzero))); break
+                allb.append(b); continue
+            cands.append((k, nonzero + [b == 0])); nonzero = nonzero + [b != 0]; allb.append(b)
         else: raise Violation('bound', 'strtol argument longer than 39 bytes', st)
-        L = len(bs) - 1
         def B(v): return z3.BitVecVal(v, 8) if isc(v) else v
         def isspace(b): return (b in (32, 9, 10, 11, 12, 13)) if isc(b) else z3.Or(b == 32, z3.And(z3.UGE(b, 9), z3.ULE(b, 13)))
         def isdigit(b): return (48 <= b <= 57) if isc(b) else z3.And(z3.UGE(b, 48), z3.ULE(b, 57))
@@ -535,7 +563,11 @@ def builtin(ex, st, fr, name, a, x, work):
             return True if not cs else (cs[0] if len(cs) == 1 else z3.And(*cs))
         def NOT_(c): return (not c) if isinstance(c, bool) else z3.Not(c)
         shapes = []
-        for ns in range(L + 1):
+        for L, lenconds in cands:
+          c_len = AND(lenconds) if lenconds else True
+          if c_len is not True and ex.sat(st, c_len) is None: continue
+          bs = allb[:L] + [0]
+          for ns in range(L + 1):
             c_ns = AND([isspace(bs[k]) for k in range(ns)] + [NOT_(isspace(bs[ns]))])
             if c_ns is False: continue
             for sign in (0, 1, 2):      # none, '+', '-'
@@ -544,13 +576,12 @@ def builtin(ex, st, fr, name, a, x, work):
                 else:
                     ch = 43 if sign == 1 else 45
                     c_s = (sb == ch); ds = ns + 1
-                    if ds > L: c_s = c_s if not isc(sb) else (sb == ch)
                 if c_s is False: continue
                 for nd in range(0, L - ds + 1 + 0):
                     if ds + nd > L: break
                     c_d = AND([isdigit(bs[k]) for k in range(ds, ds + nd)] + [NOT_(isdigit(bs[ds + nd]))])
                     if c_d is False: continue
-                    cond = AND([c_ns, c_s, c_d])
+                    cond = AND([c_len, c_ns, c_s, c_d])
                     if cond is False: continue
                     if nd > 18: raise Violation('unsupported', 'strtol with more than 18 digits', st)
                     val = 0
@@ -602,14 +633,23 @@ def builtin(ex, st, fr, name, a, x, work):
         st.sbind = {k: v for k, v in st.sbind.items() if k != a[0].obj}; return 0
     if name in ('_ZSt7getlineIcSt11char_traitsIcESaIcEERSt13basic_istreamIT_T0_ES7_RNSt7__cxx1112basic_stringIS4_S5_T1_EES4_',
                 '_ZSt7getlineIcSt11char_traitsIcESaIcEERSt13basic_istreamIT_T0_ES7_RNSt7__cxx1112basic_stringIS4_S5_T1_EE'):
-        S.add('std::getline(istream, string[, delim]) -> memfile (concrete delimiter positions only)')
+        S.add('std::getline(istream, string[, delim]) -> memfile (a symbolic byte that may be the delimiter forks the path)')
         mf = mf_get(st, fid_of(st, a[0])); delim = a[2] if len(a) > 2 else 10
         if not isc(delim): raise Violation('unsupported', 'symbolic getline delimiter', st)
         if mf['state'] & (FAILBIT | BADBIT): make_string(ex, st, a[1], []); return a[0]
         out = []; g = mf['g']; d = mf['data']; found = False
         while g < len(d):
             b = d[g]; g += 1
-            if not isc(b): raise Violation('unsupported', 'std::getline over symbolic bytes', st)
+            if not isc(b):
+                # symbolic byte: if it can be the delimiter, one successor path ends the line here
+                isd = b == z3.BitVecVal(delim & 0xff, 8)
+                if ex.sat(st, isd) is not None:
+                    if ex.sat(st, z3.Not(isd)) is None: found = True; break
+                    def endline(state, gg=g, oo=list(out)):
+                        m2 = mf_get(state, fid_of(state, a[0])); m2['g'] = gg; make_string(ex, state, a[1], oo)
+                    ex.fork_ret(st, x, isd, a[0], work, post=endline)
+                    ex.assume(st, z3.Not(isd))
+                out.append(b); continue
             if b == (delim & 0xff): found = True; break
             out.append(b)
         got = g - mf['g']; mf['g'] = g
